@@ -36,14 +36,14 @@ func main() {
 	vkit.Main("C18", "exploration", func(r *vkit.Report) {
 		r.SetRule("case = one Watchable history (sequential op list, or concurrent: 0-3 setters with unique values, 1-3 observers running the documented loop, 0-2 pollers, " +
 			"pause points held for a seeded subset of arrivals), one batch of 10000 three-party phase-sweep rounds on fresh Watchables (two Values and a Set, also on a never-Set Watchable, or one Value and two Sets, released together with swept spins; channels judged once all three calls have returned), one batch of 10000 three-party sweep rounds on fresh Futures ({Wait|WaitContext, Wait|WaitContext, Fill}) or on fresh Lazies (three first calls, f taking a swept spin), one Future scenario (waiters before / during / after Fill, Wait and WaitContext with live, cancelled and expiring contexts), " +
-			"one Lazy barrier round (result type int64, string, *T, struct{}, error, any or a method interface; result distinct per call of f, the zero value, nil, non-nil, a typed nil pointer inside the interface, or f panics), one dependent-Lazy scenario (a Lazy whose function first-calls another with 0..40 others created in between in both creation orders; chains of 2..48; two unrelated Lazies first-called concurrently, one function waiting for the other's delivery), or one xsync.Map operation list applied to xsync.Map[int,V] and sync.Map (V in int, string, *T, error, any, float64 with +0/-0/NaN, struct{float64;int}; also interface key types K = any and K = fmt.Stringer with nil, typed-nil, NaN and non-comparable dynamic keys; contents compared bit-exactly through Load and Range after every op). " +
+			"one Lazy barrier round (result type int64, string, *T, struct{}, error, any or a method interface; result distinct per call of f, the zero value, nil, non-nil, a typed nil pointer inside the interface, or f panics), one dependent-Lazy scenario (a Lazy whose function first-calls another with 0..40 others created in between in both creation orders; chains of 2..48; two unrelated Lazies first-called concurrently, one function waiting for the other's delivery), one concurrent xsync.Map history (1-2 keys, 3-4 goroutines, 6-10 ops each, checked for per-key linearizability with porcupine), one batch of map invariant sweep rounds, or one xsync.Map operation list applied to xsync.Map[int,V] and sync.Map (V in int, string, *T, error, any, float64 with +0/-0/NaN, struct{float64;int}; also interface key types K = any and K = fmt.Stringer with nil, typed-nil, NaN and non-comparable dynamic keys; contents compared bit-exactly through Load and Range after every op). " +
 			"Evaluation = one oracle comparison (one op against the sequential model, one history against the register model, one channel-rule sweep, one waiter result, one map op outcome or state comparison). " +
 			"non-trivial = Watchable history with >= 2 Sets in which a Value overlapped a Set in logical time; sweep round in which the two Values returned different values (distinct by variant and spin triple); Future scenario with waiters before and after Fill; Lazy round; " +
 			"map op list that touched an absent and a present key, and each (V, method, key state, arguments) cell of the single-operation scope. distinct = by interleaving signature (return-tick ordered (client, op, value) sequence) for concurrent histories, " +
 			"by (scenario, outcome pattern) for Future, by hash of (V, op list) for the map.")
 		r.Assume("Watchable: a channel counts as observed closed only when a receive from it completed at the client; the Set that justifies it only needs to have been INVOKED before that observation")
 		r.Assume("Watchable: at quiescence means: every setter has returned and no Set is in flight; the final value is the one a quiescent Value() returns, and that return is itself part of the history checked against the register model")
-		r.Assume("Future: WaitContext with a context that is already done on a filled Future may return either the value or ctx.Err(); a second (panicking) Fill and the value stored afterwards are recorded, not judged")
+		r.Assume("Future: WaitContext with a context that is already done on a filled Future may return either the value or ctx.Err(); a second Fill must panic and must leave the value unchanged")
 		r.Assume("xsync.Map: compared with sync.Map on outcome = results or panicked; where sync.Map itself panics (CompareAndSwap / CompareAndDelete with a non-comparable old value against a stored value of the same type) xsync.Map must panic too")
 
 		walls := make(map[string]float64)
@@ -64,6 +64,8 @@ func main() {
 		timed("map-script", mapScript)
 		timed("map-random", mapRandom)
 		timed("map-smoke", mapSmoke)
+		timed("map-lin", mapLinear)
+		timed("map-sweep", mapSweep)
 		r.SetExtra("group_wall_s:"+r.Variant(), walls)
 	})
 }
